@@ -7,7 +7,7 @@
    logic nodes the target statement is kept visible and the proved parts are *_partial. *)
 From Coq Require Import QArith Reals List String.
 From Rooc Require Import Base.XQ Model.Exp Model.Sem Model.Bounds Model.Linearize Model.Spec
-  Proof.PublishedCompile Proof.LinAffine Proof.ArmLemmas Proof.CompileAffine Proof.CompileAbs.
+  Proof.PublishedCompile Proof.LinAffine Proof.ArmLemmas Proof.CompileAffine Proof.CompileAbs Proof.CompileVerdicts.
 Import ListNotations.
 Local Close Scope Q_scope.
 Local Open Scope R_scope.
@@ -59,6 +59,33 @@ Theorem C02_optimum_abs :
       forall rho v, sat_model m rho -> ev rho (m_obj m) = Some v -> better_eq (m_dir m) (lin_objective L sigma) v.
 Proof. exact compile_abs_optimum. Qed.
 
+(* ---- the three answers of a solver (same fragment): the source and the compiled model are feasible together, unbounded
+   together, and have the same optimal value; an optimal point of the source extends to an optimal point of the compiled model *)
+Theorem C02_optimum_abs_converse :
+  forall (m : model) (L : linmodel) (rho : string -> R) (v : R), abs_model m -> compile m = inr L ->
+    sat_model m rho -> ev rho (m_obj m) = Some v ->
+    (forall rho' w, sat_model m rho' -> ev rho' (m_obj m) = Some w -> better_eq (m_dir m) v w) ->
+    exists sigma, agree_on (map fst (m_domain m)) rho sigma /\ sat_linear L sigma /\ lin_objective L sigma = v /\
+      forall tau, sat_linear L tau -> better_eq (m_dir m) v (lin_objective L tau).
+Proof. exact compile_abs_optimum_rev. Qed.
+Theorem C02_optimal_value_abs :
+  forall (m : model) (L : linmodel) (v : R), abs_model m -> compile m = inr L -> m_dir m <> DSatisfy ->
+    (((exists rho, sat_model m rho /\ ev rho (m_obj m) = Some v) /\
+      forall rho w, sat_model m rho -> ev rho (m_obj m) = Some w -> better_eq (m_dir m) v w)
+     <->
+     ((exists sigma, sat_linear L sigma /\ lin_objective L sigma = v) /\
+      forall tau, sat_linear L tau -> better_eq (m_dir m) v (lin_objective L tau))).
+Proof. exact compile_abs_optimal_value. Qed.
+Theorem C02_feasible_together_abs :
+  forall (m : model) (L : linmodel), abs_model m -> compile m = inr L ->
+    ((exists rho, sat_model m rho) <-> (exists sigma, sat_linear L sigma)).
+Proof. exact compile_abs_feasible_iff. Qed.
+Theorem C02_unbounded_together_abs :
+  forall (m : model) (L : linmodel), abs_model m -> compile m = inr L ->
+    ((forall K, exists rho w, sat_model m rho /\ ev rho (m_obj m) = Some w /\ strictly_better (m_dir m) w K)
+     <-> (forall K, exists sigma, sat_linear L sigma /\ strictly_better (m_dir m) (lin_objective L sigma) K)).
+Proof. exact compile_abs_unbounded_iff. Qed.
+
 (* ---- proved: for an affine objective the linear objective (coefficients and constant offset) equals the
    source objective at every real assignment, whatever the direction *)
 Theorem C02_affine_objective_partial :
@@ -81,5 +108,9 @@ Print Assumptions C02_objective_affine.
 Print Assumptions C02_optimum_affine.
 Print Assumptions C02_objective_abs.
 Print Assumptions C02_optimum_abs.
+Print Assumptions C02_optimum_abs_converse.
+Print Assumptions C02_optimal_value_abs.
+Print Assumptions C02_feasible_together_abs.
+Print Assumptions C02_unbounded_together_abs.
 Print Assumptions C02_affine_objective_partial.
 Print Assumptions C02_abs_onesided_partial.
